@@ -253,3 +253,118 @@ def pool(rng):
     keep += rest[:rng.randrange(2, 6)]
     rng.shuffle(keep)
     return keep
+
+
+# --- one object edited between observations (kind edit); scalar-valued JSON (kind sjson) --------------------------------
+RESERVED_INNER = [";", ",", "=", "%", "&", " ", "%41", "%2C", "+"]
+OBSERVATIONS = ["str", "hash", "eq", "set", "json", "old"]
+INPLACE_WEIGHTED = ["append", "append", "append", "extend", "extend", "pop", "pop", "setitem0", "setitem0", "pop0",
+                    "setitem_last", "insert0", "remove_first", "reverse", "iadd", "clear", "sort", "slice_assign", "del0"]
+COLUMN_VALUES = {
+    0: ["chr1", "chr2L", "ctg.7-b", "chré", "1"],
+    1: ["src", "FlyBase", ".", "a.b"],
+    2: ["gene", "mRNA", "exon", "CDS"],
+    5: [".", "0", "12.5", "900"],
+    6: ["+", "-", "."],
+    7: [".", "0", "1", "2"],
+}
+
+
+def safe_value(rng, fmt="gff3"):
+    """Non-empty value that any reader of the format gets back unchanged from a printed line: starts and ends with a
+    plain character; GFF3 values may hold reserved characters inside (they are percent-encoded in a line)."""
+    s = "".join(rng.choice(SIMPLE) for _ in range(rng.randrange(1, 6)))
+    if fmt == "gff3" and rng.random() < 0.3:
+        s += rng.choice(RESERVED_INNER) + rng.choice(SIMPLE)
+    return s + rng.choice(["", "", "", "é", "漢"])
+
+
+def safe_values(rng, fmt):
+    n = rng.choice([0, 1, 1, 1, 2, 2, 3])
+    return [safe_value(rng, fmt) for _ in range(n)]
+
+
+def safe_form(rng, fmt):
+    r = rng.random()
+    if r < 0.35:
+        return ["scalar", safe_value(rng, fmt)]
+    if r < 0.75:
+        return ["list", safe_values(rng, fmt)]
+    return ["tuple", safe_values(rng, fmt)]
+
+
+def observations(rng, p=0.35):
+    return [o for o in OBSERVATIONS if rng.random() < p]
+
+
+def edit_steps(rng, base_keys, fmt):
+    """Steps {"pre": [observations taken before the edit], "op": edit}.  Edits: the attribute operations of `ops`
+    (reparse-safe values), in-place operations on a value list, assignments to columns."""
+    keys = list(base_keys)
+    steps = []
+    for _ in range(rng.randrange(1, 6)):
+        r = rng.random()
+        if r < 0.40:
+            how = rng.choice(HOWS[:-1]) if rng.random() < 0.9 else "delete"
+            items = []
+            for _ in range(1 if how in ("feature_setitem", "attr_setitem", "setdefault", "delete") else rng.randrange(1, 3)):
+                if keys and rng.random() < 0.5:
+                    k = rng.choice(keys)
+                else:
+                    k = R.key(rng, wordlike=True, used=keys)
+                    keys.append(k)
+                if any(k == it[0] for it in items):
+                    continue
+                items.append([k, safe_form(rng, fmt)])
+            op = {"how": how, "items": items, "switch": rng.random() < 0.8}
+        elif r < 0.75:
+            what = rng.choice(INPLACE_WEIGHTED)
+            nargs = rng.randrange(0, 4) if what in ("extend", "iadd", "slice_assign") else 1
+            op = {"how": "inplace", "pick": rng.randrange(0, 12), "what": what,
+                  "args": [safe_value(rng, fmt) for _ in range(nargs)]}
+        else:
+            i = rng.choice([3, 4, 4, 4, 3, 6, 6, 0, 1, 2, 5, 7])
+            if i in (3, 4):
+                value = rng.randrange(1, 5000) if rng.random() < 0.93 else None
+            else:
+                value = rng.choice(COLUMN_VALUES[i])
+            via = "attr"
+            if rng.random() < 0.2:
+                via = "index"
+            elif i in (0, 4) and rng.random() < 0.3:
+                via = "alias"  # chrom / stop
+            op = {"how": "column", "field": i, "value": value, "via": via}
+        steps.append({"pre": observations(rng), "op": op})
+    return steps
+
+
+def scalar_base(rng, base):
+    """[[key, form]] of a base mapping [[key, [values]]]: one-item lists mostly become scalars."""
+    out = []
+    for k, vals in base:
+        if len(vals) == 1 and rng.random() < 0.75:
+            out.append([k, ["scalar", vals[0]]])
+        else:
+            out.append([k, ["list", list(vals)]])
+    return out
+
+
+def scalar_items(rng, fmt, rich, exclude=()):
+    """[[key, form]] with scalar / list forms only; rich = arbitrary Unicode keys and values (no lone surrogates),
+    otherwise word-like keys and reparse-safe values."""
+    used = list(exclude)
+    out = []
+    for i in range(rng.randrange(1, 6)):
+        if rich:
+            k = ukey(rng, used)
+        else:
+            k = R.key(rng, wordlike=True, used=used)
+        used.append(k)
+        if rng.random() < 0.65 or i == 0:
+            f = ["scalar", ustr(rng) if rich else safe_value(rng, fmt)]
+        elif rich:
+            f = ["list", values(rng)]
+        else:
+            f = ["list", safe_values(rng, fmt)]
+        out.append([k, f])
+    return out
